@@ -8,6 +8,7 @@ import (
 	"github.com/orda-io/orda/client/pkg/model"
 	"github.com/orda-io/orda/client/pkg/operations"
 	"github.com/orda-io/orda/client/pkg/simhook"
+	"sync"
 )
 
 // WiredDatatype implements the datatype features related to the synchronization with Orda server
@@ -16,6 +17,9 @@ type WiredDatatype struct {
 	wire        iface.Wire
 	checkPoint  *model.CheckPoint
 	localBuffer []*model.Operation
+	// bufMutex guards localBuffer: a transaction is queued as a whole, so that a pack built by
+	// another goroutine at the same moment never contains half a unit
+	bufMutex sync.Mutex
 }
 
 // NewWiredDatatype creates a new wiredDatatype
@@ -30,7 +34,9 @@ func NewWiredDatatype(w iface.Wire, t *TransactionDatatype) *WiredDatatype {
 
 // ResetWired resets the data related to WiredDatatype
 func (its *WiredDatatype) ResetWired() {
+	its.bufMutex.Lock()
 	its.localBuffer = make([]*model.Operation, 0, constants.OperationBufferSize)
+	its.bufMutex.Unlock()
 	its.opID.Seq = 0
 }
 
@@ -100,6 +106,8 @@ func (its *WiredDatatype) CreatePushPullPack() *model.PushPullPack {
 }
 
 func (its *WiredDatatype) getModelOperations(cseq uint64) []*model.Operation {
+	its.bufMutex.Lock()
+	defer its.bufMutex.Unlock()
 
 	if len(its.localBuffer) == 0 {
 		return []*model.Operation{}
@@ -216,7 +224,9 @@ func (its *WiredDatatype) updateStateOfDatatype(
 		model.StateOfDatatype_DUE_TO_SUBSCRIBE,
 		model.StateOfDatatype_DUE_TO_SUBSCRIBE_CREATE:
 		if its.state == model.StateOfDatatype_DUE_TO_SUBSCRIBE_CREATE && ppp.GetPushPullPackOption().HasSubscribeBit() {
+			its.bufMutex.Lock()
 			its.localBuffer = make([]*model.Operation, 0, constants.OperationBufferSize)
+			its.bufMutex.Unlock()
 			newOpID := model.NewOperationIDWithCUID(its.opID.CUID)
 			newOpID.Lamport = 1 // Because of SnapshotOperation
 			its.SetOpID(newOpID)
@@ -291,10 +301,13 @@ func (its *WiredDatatype) callHandlers(
 // DeliverTransaction delivers the transaction if needed
 func (its *WiredDatatype) DeliverTransaction(transaction []iface.Operation) {
 
+	simhook.Yield("wired.deliver.append")
+	its.bufMutex.Lock()
 	for _, op := range transaction {
-		simhook.Yield("wired.deliver.append")
 		its.localBuffer = append(its.localBuffer, op.ToModelOperation())
 	}
+	its.bufMutex.Unlock()
+	simhook.Yield("wired.deliver.appended")
 	if its.wire == nil && its.ctx.Client.SyncType != model.SyncType_REALTIME {
 		return
 	}
